@@ -146,6 +146,8 @@ def spell(path, style, proj):
         return "zz/../" + path
     if style == "abs":
         return proj + "/" + path
+    if style == "abs_dot":  # absolute but not normalised (protect sets only)
+        return proj + "/./" + path
     return path
 
 
@@ -240,6 +242,6 @@ def new_target(m, rng, produced=None, option_pool=None, p_no_outputs=0.1, subdir
     if protect and t.outputs and rng.chance(0.4):
         for p in t.outputs:
             if rng.chance(0.5):
-                t.protect.append((p, rng.pick(["plain", "plain", "dot", "dotdot", "abs"])))
+                t.protect.append((p, rng.pick(["plain", "plain", "dot", "dotdot", "abs", "abs_dot"])))
     m.targets[name] = t
     return t
